@@ -275,6 +275,10 @@ func TestVerifC14Hash(t *testing.T) {
 	e := c14qNewEnv(r)
 	if r.ReplayPath != "" {
 		var c c14qCase
+		if err := r.ReplayCase(&c); err == nil && c.Part == "nil-combo" {
+			c14qNilCombos(t, r)
+			return
+		}
 		if err := r.ReplayCase(&c); err != nil || c.Part == "" {
 			fmt.Println("replay: not a qbft decide/compare case")
 			return
@@ -431,4 +435,7 @@ func TestVerifC14Hash(t *testing.T) {
 			e.check(c14qCase{Part: "decide", Duty: int(u.duty), Data: base64.StdEncoding.EncodeToString(mutated), Unit: u.name, Mutation: kind, Where: path}, "decide:"+kind+":"+u.name)
 		})
 	}
+
+	// ---- every optional / nested field of the wire message absent, up to two at a time (zz_verif_c14nil_test.go) --
+	c14qNilCombos(t, r)
 }
